@@ -597,8 +597,8 @@ def run(ctx):
                           "statement language of coq/Model/IdPoolSrc.v, regenerated on every run as coq/Gen/Src_idpool.v "
                           "(fail-closed); C09_mark_one_is_source / C09_mark_all_is_source / C09_generate_is_source prove the "
                           "parsed programs equal to mark_one / mark_all / generate of Model/IdPool.v; the meaning the "
-                          "interpreter gives to the accepted Python shapes is trusted; the other Scenario operations (add / "
-                          "remove per kind) are tied by correspondence only")
+                          "interpreter gives to the accepted Python shapes is trusted; add_objects and "
+                          "remove_hanging_lanelet_members are tied by correspondence only (removals: c09_rm_src.py)")
     from props import c09_src
     try:
         changed = c09_src.generate()
@@ -607,6 +607,23 @@ def run(ctx):
         ctx.proof_breaks.append({"theorem": "source parser:Gen/Src_idpool.v (C09_mark_one_is_source / C09_mark_all_is_source "
                                             "/ C09_generate_is_source)", "where": "harness/props/c09_src.py", "log": str(e)})
         ctx.log(f"proof_broken theorem=C09_*_is_source (source parser: {e})")
+    ctx.trusted.insert(4, "harness/props/c09_rm_src.py: parser of Scenario.remove_obstacle / remove_lanelet / "
+                          "remove_traffic_sign / remove_traffic_light / remove_intersection / erase_lanelet_network / "
+                          "replace_lanelet_network into the statement language of coq/Model/IdRemoveSrc.v, regenerated on "
+                          "every run as coq/Gen/Src_idremove.v (fail-closed, on the normal form of vlib/astnorm.py); "
+                          "C09_removals_are_source proves the parsed methods equal to exec o of Model/IdPool.v for every "
+                          "removal operation and Replace; remove_hanging_lanelet_members and add_objects stay hand-written "
+                          "(correspondence only); LaneletNetwork.remove_* is read as net_remove_* (C10 proves that from "
+                          "lanelet.py)")
+    from props import c09_rm_src
+    try:
+        changed = c09_rm_src.generate()
+        ctx.notes.append(f"Gen/Src_idremove.v regenerated from the source ({'changed' if changed else 'unchanged'})")
+    except Exception as e:
+        ctx.proof_breaks.append({"theorem": "source parser:Gen/Src_idremove.v (C09_removals_are_source / "
+                                            "C09_source_step_inv / C09_source_reachable_inv)",
+                                 "where": "harness/props/c09_rm_src.py", "log": str(e)})
+        ctx.log(f"proof_broken theorem=C09_removals_are_source (source parser: {e})")
     ctx.build_props(extra_targets=["Corr/C09.vo"])
     if ctx.tier == "thorough":
         ctx.coqchk()
